@@ -318,6 +318,7 @@ fn main() {
                 ("seed_states", J::n(r.seed_states as f64)),
                 ("cut_reason", r.cut_reason.as_ref().map_or(J::Null, |s| J::s(s))),
                 ("states_with_nonempty_buffer", J::n(r.states_with_buffer as f64)),
+                ("states_by_buffered_objects", J::Arr(r.buffered_hist.iter().map(|x| J::n(*x as f64)).collect())),
                 ("double_replays", J::n(r.double_replays as f64)),
                 ("fresh_thread_checks", J::n(r.fresh_thread_checks as f64)),
                 ("level_sizes", J::Arr(r.level_sizes.iter().map(|x| J::n(*x as f64)).collect())),
